@@ -94,13 +94,13 @@ UNARY_CHAIN_OPERANDS = ["0", "1", "2", "9", "64", "308", "709", "710", "1.5", "-
 # the text must come out in time proportional to its length (a regex that backtracks over the ways of splitting the run doubles
 # its time with every word; such a call cannot be interrupted from Python - the worker's parent kills it by CPU time).
 PP_TAGS = ["noinclude", "includeonly", "onlyinclude"]
-PP_SIZES = {"quick": [10, 16, 24, 40, 100, 500, 2000], "thorough": [10, 13, 16, 20, 24, 30, 40, 60, 100, 150, 300, 500, 1000, 2000]}
+PP_SIZES = {"quick": [10, 16, 28, 40, 100, 500, 2000], "thorough": [10, 13, 16, 20, 24, 28, 32, 40, 60, 100, 150, 300, 500, 1000, 2000]}
 PP_CPU_LIMIT = 2.0
 # OPEN DEFECT fixes/C03-onlyinclude-unclosed-quadratic.diff: k unclosed <onlyinclude> openers in a template cost k scans to the
 # end of the text (findall), 6 s CPU for 8000 of them (104 KB); invisible up to k = 2000.  VERIF_C03_PP_BIG=1 adds k = 8000.
 PP_BIG = os.environ.get("VERIF_C03_PP_BIG", "0") == "1"
 PP_RANK1 = 16          # runs longer than this are only tried once the shorter ones of the same shape have passed
-PP_RANK2 = 24
+PP_RANK2 = 28
 
 # DEEP SELF-NESTING (Gen.nest_family): {{f:a|{{f:a|{{f:a|...}}}}}} - the same function inside one of its own arguments, 5..30
 # levels, for every registered name and every argument position, directly, through a chain of distinct templates and through a
@@ -395,7 +395,7 @@ class Gen:
     def nest_family(self, name, canon, kind):
         """`name` nested inside its own argument number p (p = 0..3; the other positions hold the fillers 1.. / empty / 0.. /
         a b c d), depth levels deep, innermost a probe call {{lc:Z}} (or the number p+1 of the position itself):
-          direct   {{f:a|{{f:a|..{{lc:Z}}..}}}}
+          direct   {{f:a|{{f:a|..{{lc:Z}}..}}}}      (and the pipe form {{f|a|{{f|a|..}}}}, where argument 0 is lazy too)
           chain    page {{N1}}, N1 = {{f:a|{{N2}}}}, N2 = {{f:a|{{N3}}}}, .. (distinct templates, no cycle)
           passarg  page {{T|{{T|..{{lc:Z}}..}}}}, T = {{f:a|{{{1}}}}}
         thorough: also as named values k=.. / 1=.. / #default=.. and with a trailing extra argument."""
@@ -404,18 +404,23 @@ class Gen:
         schemes = [("ones", ["1", "1", "1", "1"]), ("distinct", ["a", "b", "c", "d"]), ("empty", ["", "", "", ""]), ("zeros", ["0", "0", "0", "0"])]
         for p in range(4):
             for sname, fill in (schemes if p else schemes[:1]):
-                wraps = ["%s"] + (["k=%s", "1=%s", "#default=%s"] if (thorough and p >= 1) else [])
+                wraps = ["%s"] + (["k=%s", "1=%s", "#default=%s"] if (thorough and p >= 1 and sname in ("ones", "distinct")) else [])
                 for wrap in wraps:
-                    for tail in ((False, True) if thorough else (False,)):
-                        def call(inner, fill=fill, p=p, wrap=wrap, tail=tail):
-                            return call_text(name, fill[:p] + [wrap % inner] + (["z"] if tail else []))
+                    # pipe form {{f|a|{{f|a|..}}}}: a magic called without a colon gets ALL its arguments lazily (in the colon
+                    # form the text after the colon is expanded together with the name, nodes.pyx Template._flatten)
+                    for tail, pipe in ((False, False), (False, True)) + (((True, False), (True, True)) if thorough else ()):
+                        if pipe and not thorough and sname not in ("ones", "distinct"):
+                            continue
+
+                        def call(inner, fill=fill, p=p, wrap=wrap, tail=tail, pipe=pipe):
+                            return call_text(name, fill[:p] + [wrap % inner] + (["z"] if tail else []), pipe=pipe)
                         leaves = [("probe", NEST_PROBE)]
                         if canon != "#IFEXIST" or IFEXIST_EMPTY:
                             leaves.append(("own-index", str(p + 1)))
                         for lname, leaf in leaves:
                             for depth in depths:
                                 forms = ["direct"]
-                                if thorough or (sname in ("ones", "distinct") and depth == depths[1] and lname == "probe"):
+                                if (thorough and depth in (12, 30)) or (sname in ("ones", "distinct") and depth == 12 and lname == "probe"):
                                     forms += ["chain", "passarg"]
                                 for form in forms:
                                     if form == "direct":
@@ -434,7 +439,7 @@ class Gen:
                                         db = {"T": call("{{{1}}}")}
                                     ncalls = sum(len(_CALL_OPEN.findall(t)) for t in [text] + list(db.values()))
                                     self.add(text, canon, kind, -4, ("nest-" + sname, "leaf-" + lname), db=db,
-                                             form="nest-%s@%d%s" % (form, p, "" if wrap == "%s" else "-named"),
+                                             form="nest-%s%s@%d%s" % (form, "-pipe" if pipe else "", p, "" if wrap == "%s" else "-named"),
                                              budget=NEST_SLACK * max(1, ncalls) + 4, cpu_limit=NEST_CPU_LIMIT, family="nest")
 
     def alias(self, a, budget):
@@ -928,7 +933,7 @@ def run(run, src):
             "kind": collections.Counter(), "form": collections.Counter(), "lang": collections.Counter(),
             "input_size": collections.Counter()}
     covered = collections.Counter()
-    hits = {}                  # fingerprint -> [(size key, what, replay)]: the smallest input of each root cause is reported
+    hits = {}                  # fingerprint -> [(size key, what, replay)]: the smallest (clearly failing) input of each root cause is reported
     max_disp_ratio = (0.0, "")
     max_out_excess = (0, "")
     max_cpu_ratio = (0.0, "")
@@ -1080,7 +1085,10 @@ def _account(run, c, r, n, verdict, dist, covered, hits=None):
         if c["arity"] in (-2, -3, -4) and c["db"] is not DB_DEFAULT and c["db"] != DB_DEFAULT:
             tj = json.dumps(c["db"], ensure_ascii=False)
             tpl = "  templates %s" % (tj if len(tj) <= 400 else tj[:300] + "...(%d chars)" % len(tj))
-        item = ((n, c.get("limit") or 0, c["id"]), "%s%s  [site %s]  %s" % (short(c), tpl, c["lang"], what), replay_obj(c, fp))
+        # a CPU-time finding that exceeds its limit by less than a factor of two may not reproduce on a faster machine: among
+        # the failing inputs of one root cause the clear ones (no result at all / more than twice the limit) come first
+        weak = 1 if (fp.startswith("time:") and r["outcome"] == "ok" and r["cpu"] < 2 * limits(n)[0]) else 0
+        item = ((weak, n, c.get("limit") or 0, c["id"]), "%s%s  [site %s]  %s" % (short(c), tpl, c["lang"], what), replay_obj(c, fp))
         if hits is None:
             run.hit(fp, item[1], item[2])
         else:
